@@ -62,7 +62,7 @@ CfgT    == {"top"}
 CfgTV   == {"top", "view"}
 PreQ    == {<<M, A>>, <<M>>, <<A>>}
 PreN    == {<<A>>, <<A, A>>, <<A, B>>, <<B>>}
-PreD    == {<<M, A>>, <<A>>, <<A, A>>}
+PreD    == {<<M, A>>, <<A, A>>}
 PreG    == {<<M, A>>, <<A, A>>}
 PreDT   == {<<M, A>>, <<A>>, <<A, A>>, <<A, B>>, <<M>>}
 PreC    == {<<M, A>>, <<A>>, <<A, B>>}
